@@ -17,8 +17,8 @@ import os
 import vlib
 
 PID = "C15"
-NEGS = ["continue", "sleepnext", "mult", "weights", "pernext", "grpcabort", "htmlraw"]
-INVS = ["Built", "LogOK", "GapsOK", "SamplesOK", "RingOK", "NextRowsOK", "MultiSamplesOK", "MultiBagsOK"]
+NEGS = ["continue", "sleepnext", "mult", "weights", "pernext", "grpcabort", "htmlraw", "nextkey", "sleepleak"]
+INVS = ["Built", "LogOK", "GapsOK", "SamplesOK", "StepsOK", "ShotSpanOK", "RingOK", "NextRowsOK", "MultiSamplesOK", "MultiBagsOK"]
 
 
 def cases_of(r):
@@ -63,11 +63,13 @@ def validate(v, obs_path, tag=""):
         row = rows[ln - 1]
         c = row["case"]
         o = row["obs"]
-        what = "%s: %s fails; observed log=%s samples=%s ring=%s build_err=%r run_err=%r" % (
+        what = "%s: %s fails; observed log=%s samples=%s ring=%s steps=%s spans=%s build_err=%r run_err=%r" % (
             describe(c), inv,
             [(e["req"], e["val"]["t"] + str(e["val"]["n"]), e["at"], e["since"]) for e in o["log"]][:14],
             [(s["sc"] + "." + s["step"], s["proto"], s["err"]) for s in o["samples"]][:14],
-            o["ring"][:8], o["build_err"][:200], o["run_err"][:200])
+            o["ring"][:8],
+            [(x["sc"], x["mwt"], [(y["name"], y["sleep"]) for y in x["steps"]][:10]) for x in o.get("steps", [])][:3],
+            [(x["sc"], x["ms"]) for x in o.get("spans", [])][:8], o["build_err"][:200], o["run_err"][:200])
         v.violation(signature(c, inv, row["inst"]), what, replay_obj={"kind": "case", "invariant": inv, "line": row},
                     replay_name="case_%d_%s%s.json" % (c["id"], inv, tag))
     return rows, tr
@@ -91,6 +93,10 @@ def run(tier, v):
     vlib.tlc_must_pass(r2, "Scenario_next2")
     states += r2.distinct
     trans += r2.generated
+    r3 = vlib.tlc("ScenarioMC", "Scenario_src2.cfg", workers=2, heap="2g", deadlock=False, timeout=900)
+    vlib.tlc_must_pass(r3, "Scenario_src2")
+    states += r3.distinct
+    trans += r3.generated
     import concurrent.futures
     with concurrent.futures.ThreadPoolExecutor(max_workers=3) as ex:
         futs = {neg: ex.submit(vlib.tlc, "ScenarioMC", "Scenario_neg_%s.cfg" % neg, workers=1, heap="1g", deadlock=False,
@@ -156,7 +162,7 @@ def run(tier, v):
         "hcl_cases": sum(1 for r_ in rows if r_["obs"]["format"] == "hcl"),
         "trace_spec_states": tr.distinct,
         "negative_controls": NEGS,
-        "design_configs": ["Scenario_thorough.cfg" if thorough else "Scenario_exh.cfg", "Scenario_next2.cfg"],
+        "design_configs": ["Scenario_thorough.cfg" if thorough else "Scenario_exh.cfg", "Scenario_next2.cfg", "Scenario_src2.cfg"],
     }
     return "model_checking", cov, [
         "design level exhaustive within: <= 3 listed requests, multiplicities 1..3, sleeps 0/3/4 ms, 9 flow profiles, "
